@@ -742,6 +742,32 @@ pub fn gen_request(rng: &mut Rng, max_ops: usize, long_texts: bool, cap: usize, 
                 ops.push(again);
             }
         }
+        if op.nth(0).int() == 3 && st == 1 && store.annotations_len() == before + 1 && op.nth(2).nth(0).int() == 0 && rng.chance(1, 5) {
+            // layers: annotations relative to the one just made, one right after the other, and a
+            // complex selector that points at all of each of them
+            let parent = before;
+            let first = store.annotations_len();
+            let k = 2 + rng.below(2);
+            let mut made = Vec::new();
+            for i in 0..k {
+                let cb = l(vec![a(0), a(i as i64)]);
+                let ce = if rng.chance(1, 2) { l(vec![a(1), a(0)]) } else { l(vec![a(0), a(i as i64 + 1)]) };
+                let rel = l(vec![a(3), a(-1), l(vec![a(2), hnd(parent), cb, ce]), l(vec![])]);
+                if apply(&mut store, &rel) == 1 {
+                    made.push(first + made.len());
+                }
+                ops.push(rel);
+            }
+            if made.len() >= 2 && store.annotations_len() == first + made.len() {
+                let mut v = vec![a(7), a(1 + rng.below(3) as i64)];
+                for h in made.iter() {
+                    v.push(l(vec![a(2), hnd(*h), l(vec![a(0), a(0)]), l(vec![a(1), a(0)])]));
+                }
+                let grp = l(vec![a(3), a(-1), l(v), l(vec![])]);
+                let _ = apply(&mut store, &grp);
+                ops.push(grp);
+            }
+        }
         if op.nth(0).int() == 3 && st == 1 && rng.chance(1, 6) {
             // a twin: the same target once more (equal texts share their validation data)
             let twin = l(vec![a(3), a(-1), op.nth(2).clone(), l(vec![])]);
@@ -885,6 +911,52 @@ fn small_scope(out: &mut Out, ctx: &Ctx, thorough: bool) {
             }
         }
     }
+    // three layers: an annotation on text, annotations on it with a relative offset created one
+    // right after the other, and complex selectors that point with the whole-offset (B0..E0) at runs
+    // of those (the store fuses such runs into an internal range)
+    {
+        let whole = |h: usize| l(vec![a(2), hnd(h), c(0), e(0)]);
+        let text8: Vec<i64> = vec![97, 233, 98, 28450, 99, 128512, 100, 101];
+        let mut res = vec![a(0), a(0), a(8)];
+        res.extend(text8.iter().map(|x| a(*x)));
+        let base = vec![
+            l(res),
+            l(vec![a(3), a(-1), t(c(1), c(7)), l(vec![])]),                            // 0: "on text"
+            l(vec![a(3), a(-1), l(vec![a(2), hnd(0), c(0), c(2)]), l(vec![])]),        // 1
+            l(vec![a(3), a(-1), l(vec![a(2), hnd(0), c(2), c(3)]), l(vec![])]),        // 2
+            l(vec![a(3), a(-1), l(vec![a(2), hnd(0), c(3), e(0)]), l(vec![])]),        // 3
+            l(vec![a(3), a(-1), t(c(0), c(1)), l(vec![])]),                            // 4: on text again
+        ];
+        let groups: Vec<Vec<Sx>> = vec![
+            vec![whole(1), whole(2)],
+            vec![whole(1), whole(2), whole(3)],
+            vec![whole(2), whole(3)],
+            vec![t(c(0), c(1)), whole(1), whole(2)],
+            vec![whole(2), whole(3), t(c(7), c(8))],
+            vec![whole(0), whole(1)],
+            vec![whole(3), whole(4)],
+            vec![whole(1), whole(3)],
+        ];
+        let mut n = 0usize;
+        for g in groups.iter() {
+            for kind in 1..=3i64 {
+                for mode in 0..4i64 {
+                    n += 1;
+                    let mut v = vec![a(7), a(kind)];
+                    v.extend(g.iter().cloned());
+                    let mut ops = base.clone();
+                    let data = if n % 3 == 0 { l(vec![vdata(KDEL, "|")]) } else { l(vec![]) };
+                    ops.push(l(vec![a(3), a(-1), l(v), data]));
+                    let flags = [0i64, 0, 8, 1, 63][n % 5];
+                    let req = l(vec![l(ops), a(mode), l(vec![a(-1), a(9)]), a(flags)]);
+                    let (input, o, nt) = ctx.exec(&req);
+                    coverage(out, &req, &input, &o);
+                    out.count("three_layer_case");
+                    out.case(&input, &o, nt, &req);
+                }
+            }
+        }
+    }
     let delims: [Option<&str>; 2] = [None, Some("|")];
     let step = if thorough { 1 } else { 2 };
     let mut k = 0usize;
@@ -944,5 +1016,5 @@ pub fn generate(out: &mut Out, tier: &str, seed: u64) {
     let _ = std::fs::remove_dir_all(&ctx.dir);
 }
 
-pub const RULE: &str = "seeded random histories (C01 generator plus annotations over text: single, Multi/Composite/Directional with mixed begin- and end-aligned cursors, annotation-relative) over resources with arbitrary texts of 1-4 byte characters, delimiters of their own, hand-carried validation data, the user's own data under keys named text / checksum / delimiter in other sets, protect_text in the middle of histories; one case in four (and 7 in 10 of the small scope) under a configuration with reverse indices switched off (each of the six switches, all, text + annotation index; histories without removals; records with reverse lookups not compared there); then protect_text in one of the four modes, verdict of every annotation and the counters, every annotation and dataset record with its reverse lookups, JSON and CBOR round trip, and every single edit (substitution, insertion, deletion at every position up to a cap) of every resource text loaded through the store's own JSON. One evaluation = one compared observation.";
+pub const RULE: &str = "seeded random histories (C01 generator plus annotations over text: single, Multi/Composite/Directional with mixed begin- and end-aligned cursors, annotation-relative, groups pointing with the whole-offset at runs of consecutively created annotation-relative annotations) over resources with arbitrary texts of 1-4 byte characters, delimiters of their own, hand-carried validation data, the user's own data under keys named text / checksum / delimiter in other sets, protect_text in the middle of histories; one case in four (and 7 in 10 of the small scope) under a configuration with reverse indices switched off (each of the six switches, all, text + annotation index; histories without removals; records with reverse lookups not compared there); then protect_text in one of the four modes, verdict of every annotation and the counters, every annotation and dataset record with its reverse lookups, JSON and CBOR round trip, and every single edit (substitution, insertion, deletion at every position up to a cap) of every resource text loaded through the store's own JSON. One evaluation = one compared observation.";
 pub const EXHAUSTIVE: bool = false;
